@@ -41,7 +41,7 @@ def main():
                 base = meta.get("confirmed", {}).get("base_commit")
                 res = {"status": "patch-does-not-apply-to-current-tree", "rules": []}
                 if base:
-                    scr = "/tmp/mrepo"
+                    scr = os.environ.get("SEED_SCR", "/tmp/mrepo")
                     subprocess.run("git -C /repo worktree prune; [ -d %s ] || git -C /repo worktree add -q --detach %s HEAD" % (scr, scr), shell=True)
                     subprocess.run("git -C %s checkout -q --detach %s && git -C %s checkout -q -- . && git -C %s clean -fdq" % (scr, base, scr, scr), shell=True)
                     a = subprocess.run(["git", "-C", scr, "apply", d + "patch.diff"], capture_output=True, text=True)
